@@ -66,6 +66,7 @@ class Ctx:
         self.plan = None  # (fn name, in-transition call index, kind)
         self.fired = False
         self.fired_during_step = False
+        self.probe = False
 
 
 def perturb(out, kind):
@@ -112,7 +113,7 @@ def build(case, obs, ctx, forced=False):
     integ = zoo.make_integrator(m, ispec)
 
     def hook(name, idx, out):  # noqa: ARG001
-        if not ctx.in_transition:
+        if not ctx.in_transition or ctx.probe:
             return out
         k = ctx.counts.get(name, 0)
         ctx.counts[name] = k + 1
@@ -157,6 +158,18 @@ def build(case, obs, ctx, forced=False):
                 xin, xout = pairs[-1]
                 if not np.array_equal(o, xout) or not np.max(np.abs(xout - xin)) < tol:
                     obs.violation(f"solver-returned-unconverged:{name}", f"{name} returned although the last update was {np.max(np.abs(xout - xin)):.3e} >= {tol}")
+            if np.all(np.isfinite(o)):
+                # a returned value must actually be a fixed point (to within a generous multiple of the tolerance)
+                ctx.probe = True
+                try:
+                    res = float(np.max(np.abs(np.asarray(func(np.array(o)), dtype=float) - o)))
+                except Exception:  # noqa: BLE001
+                    res = 0.0
+                finally:
+                    ctx.probe = False
+                obs.maxi(f"fixed_point_residual_over_tol.{name}", res / tol)
+                if res > 1e3 * tol * (1 + float(np.max(np.abs(o)))):
+                    obs.violation(f"solver-returned-non-fixed-point:{name}", f"{name} returned x with |f(x) - x| = {res:.3e} (tolerance {tol})")
             return out
 
         return monitored
